@@ -761,7 +761,7 @@ impl St {
                                 self.hs.insert(var, H::Ent { a, any });
                                 "ok".into()
                             }
-                            Err(_) => "err".into(),
+                            Err(e) => format!("err:{:?}", e),
                         }
                     }
                     "ent" => {
@@ -776,7 +776,7 @@ impl St {
                                 }
                                 Err(c) => format!("panic {}", c),
                             },
-                            Err(_) => "err".into(),
+                            Err(e) => format!("err:{:?}", e),
                         }
                     }
                     "dir" => {
@@ -910,7 +910,7 @@ fn conv(h: H) -> String {
                             hs.insert(back);
                             format!("ok:{}:{}:{}:{}:{}", fmt_any(back), (back == any) as u8, e.archetype_id(), (hash_of(&e) == hash_of(&any)) as u8, hs.contains(&any) as u8)
                         }
-                        Err(_) => "err".to_string(),
+                        Err(e) => format!("err:{:?}", e),
                     };
                     format!("{}/{}", r, match fa { Ok(e) => format!("ok:{}", fmt_any(e.into_any())), Err(c) => format!("!{}", c) })
                 });
@@ -930,16 +930,16 @@ fn conv(h: H) -> String {
                     };
                     format!("{}:{}", a, fmt_any(e))
                 }
-                Err(_) => "err".to_string(),
+                Err(e) => format!("err:{:?}", e),
             };
             out.push(format!("sel={}", sel));
             let sa = match SelectArchetype::try_from(any) {
                 Ok(s) => format!("{}", s.archetype_id()),
-                Err(_) => "err".to_string(),
+                Err(e) => format!("err:{:?}", e),
             };
             let sa2 = match SelectArchetype::try_from(any.archetype_id()) {
                 Ok(s) => format!("{}", s.archetype_id()),
-                Err(_) => "err".to_string(),
+                Err(e) => format!("err:{:?}", e),
             };
             out.push(format!("sa={}/{}", sa, sa2));
         }
@@ -958,7 +958,7 @@ fn conv(h: H) -> String {
                             let back: EntityDirectAny = e.into();
                             format!("ok:{}:{}:{}:{}", fmt_dir(back), (back == any) as u8, e.archetype_id(), (hash_of(&e) == hash_of(&any)) as u8)
                         }
-                        Err(_) => "err".to_string(),
+                        Err(e) => format!("err:{:?}", e),
                     };
                     format!("{}/{}", r, match fa { Ok(e) => format!("ok:{}", fmt_dir(e.into_any())), Err(c) => format!("!{}", c) })
                 });
@@ -978,7 +978,7 @@ fn conv(h: H) -> String {
                     };
                     format!("{}:{}", a, fmt_dir(e))
                 }
-                Err(_) => "err".to_string(),
+                Err(e) => format!("err:{:?}", e),
             };
             out.push(format!("sel={}", sel));
         }
